@@ -70,6 +70,69 @@ theorem score_eq_formula (ord : Ord) (span dmax pen : Rat) (elites : List Elite)
   cases h : maxL (elites.map (valueAt ord span dmax pen t)) <;>
     simp [List.mapM_cons, List.mapM_nil, h]
 
+/-- a point of the measure space: coordinate-wise between the bounds -/
+def InBox : List Rat → List Rat → List Rat → Prop
+  | l :: ls, h :: hs, x :: xs => l ≤ x ∧ x ≤ h ∧ InBox ls hs xs
+  | [], [], [] => True
+  | _, _, _ => False
+
+theorem absR_le {x c : Rat} (h1 : -c ≤ x) (h2 : x ≤ c) : absR x ≤ c := by
+  unfold absR; split <;> linarith
+
+theorem absR_nonneg (x : Rat) : 0 ≤ absR x := by
+  unfold absR; split <;> linarith
+
+theorem absR_of_nonneg {x : Rat} (h : 0 ≤ x) : absR x = x := by
+  unfold absR; split
+  · linarith
+  · rfl
+
+/-- **T06.7 `dist_le_defaultDistMax`** : with the default `dist_max` (same norm order as the
+distances) every distance between two points of the measure space is at most `dist_max`, so the
+normalised distance `dist / dist_max` that the penalty multiplies lies in `[0, 1]` for *every*
+`dist_ord` — the reason the default must be computed with `ord = dist_ord`. -/
+theorem dist_le_defaultDistMax (ord : Ord) (lo hi a b : List Rat)
+    (ha : InBox lo hi a) (hb : InBox lo hi b) :
+    0 ≤ dist ord a b ∧ dist ord a b ≤ defaultDistMax ord lo hi := by
+  unfold defaultDistMax
+  induction lo generalizing hi a b with
+  | nil =>
+    cases hi <;> cases a <;> cases b <;> simp [InBox] at ha hb
+    cases ord <;> simp [dist, distL1, distLinf]
+  | cons l ls ih =>
+    cases hi with
+    | nil => cases a <;> simp [InBox] at ha
+    | cons h hs =>
+      cases a with
+      | nil => simp [InBox] at ha
+      | cons x xs =>
+        cases b with
+        | nil => simp [InBox] at hb
+        | cons y ys =>
+          obtain ⟨hx1, hx2, hxs⟩ := ha
+          obtain ⟨hy1, hy2, hys⟩ := hb
+          have hd : absR (x - y) ≤ h - l := absR_le (by linarith) (by linarith)
+          have hhl : absR (h - l) = h - l := absR_of_nonneg (by linarith)
+          have h0 := absR_nonneg (x - y)
+          cases ord with
+          | l1 =>
+            have := ih hs xs ys hxs hys
+            simp only [dist] at this ⊢
+            simp only [distL1, hhl]
+            constructor <;> linarith [this.1, this.2]
+          | linf =>
+            have := ih hs xs ys hxs hys
+            simp only [dist] at this ⊢
+            simp only [distLinf, hhl]
+            constructor
+            · exact le_trans h0 (le_max_left _ _)
+            · exact max_le (le_trans hd (le_max_left _ _)) (le_trans this.2 (le_max_right _ _))
+
+/-- the two orders give different defaults on a non-square space (why the order matters) -/
+theorem defaultDistMax_depends_on_ord :
+    defaultDistMax .l1 [0, 0] [3, 4] = 7 ∧ defaultDistMax .linf [0, 0] [3, 4] = 4 := by
+  decide +kernel
+
 theorem nonvacuous :
     scoreIter .l1 2 4 [0, 1] [⟨4, [0, 0]⟩, ⟨2, [2, 2]⟩] [[2, 2], [0, 1]] = some (27/4) ∧
     scoreIter .l1 2 4 [0, 1] [⟨2, [2, 2]⟩, ⟨4, [0, 0]⟩] [[2, 2], [0, 1]] = some (27/4) := by
